@@ -52,6 +52,11 @@ Definition model (t : tree) : option (list Z) :=
   | L [A 11; A _; _; vb] => olet vb := tlist tZ vb in
       let r := total (results_from vb) :: cases (results_from vb) in Some (r ++ [-7] ++ r)
   (* individuals over a single score-or-error result *)
+  (* the operators and the totals at other integer result types: the same order, the same sum *)
+  | L [A 14; A _; A pol; A a; A b] =>
+      Some (expect (Some (if pol =? 0 then score_cmp a b else error_cmp a b)) (a =? b) true)
+  | L [A 15; A _; l] => olet l := tlist tZ l in
+      Some (total (results_from l) :: total (results_from l) :: cases (results_from l))
   | L [A 12; L [ga; ra]; L [gb; rb]] =>
       olet ga := tlist tZ ga in olet gb := tlist tZ gb in olet ra := dec_tres ra in olet rb := dec_tres rb in
       Some (expect (tres_pcmp ra rb) (zlist_eqb ga gb && tres_eqb ra rb) false)
